@@ -377,6 +377,60 @@ fn rt<const B: usize, const L: usize, E: Debug>(rec: &mut Rec, check: &str, r: R
     rec.ensure(check, "roundtrip_value_wrong", &got == vb, || format!("decoded {} expected {}", hex(&got), hex(vb)))
 }
 
+/// A second value for container shapes: the bitwise complement of `v` (so a pair is never two equal elements unless BITS = 0).
+fn second<const B: usize, const L: usize>(c: &Case) -> (U<B, L>, BigUint) {
+    let mut l: Vec<u64> = c.l[0].iter().map(|x| !*x).collect();
+    l.resize(L, u64::MAX);
+    if L > 0 {
+        l[L - 1] &= ruint::mask(B);
+    }
+    let w: U<B, L> = mk(&l);
+    let wb = num(&w);
+    (w, wb)
+}
+
+/// Decoded container must hold exactly the expected values, in order (all 64*LIMBS bits compared).
+fn rt_vec<const B: usize, const L: usize, E: Debug>(rec: &mut Rec, check: &str, r: Result<Result<Vec<U<B, L>>, E>, String>, exp: &[&BigUint]) -> R {
+    let d = want_ok(rec, check, "decode_error", r)?;
+    let got: Vec<BigUint> = d.iter().map(num).collect();
+    let ok = got.len() == exp.len() && got.iter().zip(exp.iter()).all(|(a, b)| a == *b);
+    rec.ensure(check, "roundtrip_value_wrong", ok, || format!("decoded {:?} expected {:?}", got.iter().map(hex).collect::<Vec<_>>(), exp.iter().map(|x| hex(x)).collect::<Vec<_>>()))
+}
+
+/// A `der::Reader` in the style of der's streaming `PemReader`: it cannot lend slices of its input
+/// (`read_slice` fails with `ErrorKind::Reader`, as the trait documents), data can only be copied out.
+struct CopyReader<'i> {
+    input: &'i [u8],
+    position: usize,
+}
+
+impl<'i> der::Reader<'i> for CopyReader<'i> {
+    fn input_len(&self) -> der::Length {
+        der::Length::try_from(self.input.len()).unwrap()
+    }
+    fn peek_byte(&self) -> Option<u8> {
+        self.input.get(self.position).copied()
+    }
+    fn peek_header(&self) -> der::Result<der::Header> {
+        <der::Header as der::Decode>::decode(&mut der::SliceReader::new(&self.input[self.position..])?)
+    }
+    fn position(&self) -> der::Length {
+        der::Length::try_from(self.position).unwrap()
+    }
+    fn read_slice(&mut self, _len: der::Length) -> der::Result<&'i [u8]> {
+        Err(der::ErrorKind::Reader.into())
+    }
+    fn read_into<'o>(&mut self, buf: &'o mut [u8]) -> der::Result<&'o [u8]> {
+        let end = self.position + buf.len();
+        if end > self.input.len() {
+            return Err(der::Error::incomplete(self.input_len()));
+        }
+        buf.copy_from_slice(&self.input[self.position..end]);
+        self.position = end;
+        Ok(buf)
+    }
+}
+
 fn bytes_eq(rec: &mut Rec, check: &str, class: &str, got: &[u8], exp: &[u8]) -> R {
     rec.ensure(check, class, got == exp, || format!("got {} expected {}", hex_bytes(got), hex_bytes(exp)))
 }
@@ -650,6 +704,36 @@ fn body_scale_fixed<const B: usize, const L: usize>(c: &Case, rec: &mut Rec) -> 
     rt(rec, "scale::decode", r, &vb)?;
     rec.ensure("scale::decode", "not_fully_consumed", rest == [0x55], || format!("{} bytes left, expected 1", rest.len()))?;
     rt(rec, "scale::decode_all", catch(|| <U<B, L> as DecodeAll>::decode_all(&mut &out[..])), &vb)?;
+    // container shapes (Vec / array / tuple / Option go through the element's `decode_into`, `skip`,
+    // `encoded_fixed_size`, `size_hint`, `encode_to` hooks)
+    {
+        let (w, wb) = second::<B, L>(c);
+        let outw = rec.no_panic("scale::encode", catch(|| Encode::encode(&w)))?;
+        let pair = [out.clone(), outw.clone()].concat();
+        let a = rec.no_panic("scale::encode([U;2])", catch(|| Encode::encode(&[v, w])))?;
+        bytes_eq(rec, "scale::encode([U;2])", "differs_from_element_encodings", &a, &pair)?;
+        rt_vec(rec, "scale::decode([U;2])", catch(|| <[U<B, L>; 2] as DecodeAll>::decode_all(&mut &a[..]).map(|x| x.to_vec())), &[&vb, &wb])?;
+        let vv = rec.no_panic("scale::encode(Vec<U>)", catch(|| Encode::encode(&vec![v, w, v])))?;
+        bytes_eq(rec, "scale::encode(Vec<U>)", "differs_from_element_encodings", &vv, &[&[12u8][..], &pair[..], &out[..]].concat())?;
+        rt_vec(rec, "scale::decode(Vec<U>)", catch(|| <Vec<U<B, L>> as DecodeAll>::decode_all(&mut &vv[..])), &[&vb, &wb, &vb])?;
+        for step in chunk_steps(vv.len()) {
+            let mut rd = parity_scale_codec::IoReader(Chunked { data: &vv, step });
+            rt_vec(rec, "scale::decode(Vec<U>,IoReader,chunked)", catch(|| <Vec<U<B, L>> as Decode>::decode(&mut rd)), &[&vb, &wb, &vb])?;
+        }
+        let t = rec.no_panic("scale::encode((U,Option<U>))", catch(|| Encode::encode(&(w, Some(v)))))?;
+        bytes_eq(rec, "scale::encode((U,Option<U>))", "differs_from_element_encodings", &t, &[&outw[..], &[1u8][..], &out[..]].concat())?;
+        rt_vec(rec, "scale::decode((U,Option<U>))", catch(|| <(U<B, L>, Option<U<B, L>>) as DecodeAll>::decode_all(&mut &t[..]).map(|x| vec![x.0, x.1.unwrap_or_default()])), &[&wb, &vb])?;
+        // skip: the element after a skipped one must still be read from the right offset
+        let r = catch(|| {
+            let mut inp = &pair[..];
+            <U<B, L> as Decode>::skip(&mut inp)?;
+            <U<B, L> as Decode>::decode(&mut inp)
+        });
+        rt(rec, "scale::skip+decode", r, &wb)?;
+        if let Some(fs) = rec.no_panic("scale::encoded_fixed_size", catch(|| <U<B, L> as Decode>::encoded_fixed_size()))? {
+            rec.ensure("scale::encoded_fixed_size", "length_mismatch", fs == out.len(), || format!("encoded_fixed_size {fs} but {} bytes", out.len()))?;
+        }
+    }
     for step in chunk_steps(out.len()) {
         let mut rd = parity_scale_codec::IoReader(Chunked { data: &buf, step });
         let r = catch(|| <U<B, L> as Decode>::decode(&mut rd));
@@ -787,6 +871,14 @@ fn body_ssz<const B: usize, const L: usize>(c: &Case, rec: &mut Rec) -> R {
         || "a fixed-width integer must be a fixed-length SSZ type".into(),
     )?;
     rt(rec, "ssz::from_ssz_bytes", catch(|| <U<B, L> as ssz::Decode>::from_ssz_bytes(&out)), &vb)?;
+    if B > 0 {
+        // a list of fixed-length items is the concatenation of the items (split by ssz_fixed_len on decode)
+        let (w, wb) = second::<B, L>(c);
+        let expw = le_fixed(&wb, nbytes(B));
+        let lst = rec.no_panic("ssz::as_ssz_bytes(Vec<U>)", catch(|| ssz::Encode::as_ssz_bytes(&vec![v, w, v])))?;
+        bytes_eq(rec, "ssz::as_ssz_bytes(Vec<U>)", REF, &lst, &[&exp[..], &expw[..], &exp[..]].concat())?;
+        rt_vec(rec, "ssz::from_ssz_bytes(Vec<U>)", catch(|| <Vec<U<B, L>> as ssz::Decode>::from_ssz_bytes(&lst)), &[&vb, &wb, &vb])?;
+    }
     if B == 64 {
         rec.class("prim_u64");
         bytes_eq(rec, "ssz::as_ssz_bytes", PRIM, &out, &ssz::Encode::as_ssz_bytes(&vb.to_u64().unwrap()))?;
@@ -838,6 +930,34 @@ fn body_borsh<const B: usize, const L: usize>(c: &Case, rec: &mut Rec) -> R {
         let r = catch(|| borsh::from_reader::<_, Bits<B, L>>(&mut Chunked { data: &out, step }).map(|b| b.into_inner()));
         rt(rec, "borsh::from_reader(chunked,Bits)", r, &vb)?;
     }
+    // container shapes: arrays, vectors, tuples, options and boxes go through the element type's bulk
+    // hooks (`array_from_reader`, `vec_from_reader`, `u8_slice`), which an impl may override
+    // (not for BITS = 0: borsh itself refuses collections of zero-sized types)
+    if B > 0 {
+        let (w, wb) = second::<B, L>(c);
+        let expw = le_fixed(&wb, nbytes(B));
+        let pair = [exp.clone(), expw.clone()].concat();
+        let a = want_ok(rec, "borsh::to_vec([U;2])", "encode_error", catch(|| borsh::to_vec(&[v, w])))?;
+        bytes_eq(rec, "borsh::to_vec([U;2])", REF, &a, &pair)?;
+        rt_vec(rec, "borsh::from_slice([U;2])", catch(|| borsh::from_slice::<[U<B, L>; 2]>(&a).map(|x| x.to_vec())), &[&vb, &wb])?;
+        rt_vec(rec, "borsh::from_slice([U;3])", catch(|| borsh::from_slice::<[U<B, L>; 3]>(&[expw.clone(), pair.clone()].concat()).map(|x| x.to_vec())), &[&wb, &vb, &wb])?;
+        let vv = want_ok(rec, "borsh::to_vec(Vec<U>)", "encode_error", catch(|| borsh::to_vec(&vec![v, w])))?;
+        bytes_eq(rec, "borsh::to_vec(Vec<U>)", REF, &vv, &[&2u32.to_le_bytes()[..], &pair[..]].concat())?;
+        rt_vec(rec, "borsh::from_slice(Vec<U>)", catch(|| borsh::from_slice::<Vec<U<B, L>>>(&vv)), &[&vb, &wb])?;
+        for step in chunk_steps(vv.len()) {
+            rt_vec(rec, "borsh::from_reader(Vec<U>,chunked)", catch(|| borsh::from_reader::<_, Vec<U<B, L>>>(&mut Chunked { data: &vv, step })), &[&vb, &wb])?;
+            rt_vec(rec, "borsh::from_reader([U;2],chunked)", catch(|| borsh::from_reader::<_, [U<B, L>; 2]>(&mut Chunked { data: &a, step }).map(|x| x.to_vec())), &[&vb, &wb])?;
+        }
+        let t = want_ok(rec, "borsh::to_vec((U,U))", "encode_error", catch(|| borsh::to_vec(&(w, v))))?;
+        bytes_eq(rec, "borsh::to_vec((U,U))", REF, &t, &[expw.clone(), exp.clone()].concat())?;
+        rt_vec(rec, "borsh::from_slice((U,U))", catch(|| borsh::from_slice::<(U<B, L>, U<B, L>)>(&t).map(|x| vec![x.0, x.1])), &[&wb, &vb])?;
+        let o = want_ok(rec, "borsh::to_vec(Option<U>)", "encode_error", catch(|| borsh::to_vec(&Some(v))))?;
+        bytes_eq(rec, "borsh::to_vec(Option<U>)", REF, &o, &[&[1u8][..], &exp[..]].concat())?;
+        rt_vec(rec, "borsh::from_slice(Option<Box<U>>)", catch(|| borsh::from_slice::<Option<Box<U<B, L>>>>(&o).map(|x| x.into_iter().map(|b| *b).collect())), &[&vb])?;
+        let ab = want_ok(rec, "borsh::to_vec([Bits;2])", "encode_error", catch(|| borsh::to_vec(&[Bits::<B, L>::from(v), Bits::<B, L>::from(w)])))?;
+        bytes_eq(rec, "borsh::to_vec([Bits;2])", REF, &ab, &pair)?;
+        rt_vec(rec, "borsh::from_slice(Vec<Bits>)", catch(|| borsh::from_slice::<Vec<Bits<B, L>>>(&vv).map(|x| x.into_iter().map(|b| b.into_inner()).collect())), &[&vb, &wb])?;
+    }
     // Bits
     let bits = Bits::<B, L>::from(v);
     let outb = want_ok(rec, "borsh::to_vec(Bits)", "encode_error", catch(|| borsh::to_vec(&bits)))?;
@@ -888,12 +1008,21 @@ fn body_der<const B: usize, const L: usize>(c: &Case, rec: &mut Rec) -> R {
     rt(rec, "der::from_der", catch(|| <U<B, L> as Decode>::from_der(&out)), &vb)?;
     let mut buf = out.clone();
     buf.push(0x55);
-    let r = catch(|| {
+    let r0 = catch(|| {
         let mut rd = der::SliceReader::new(&buf)?;
         let x = <U<B, L> as Decode>::decode(&mut rd)?;
         Ok::<_, der::Error>((x, usize::try_from(rd.remaining_len()).unwrap()))
     });
-    let (x, left) = want_ok(rec, "der::decode", "decode_error", r)?;
+    // a reader that cannot lend slices (der's PemReader behaves like this): only copying reads
+    let r = catch(|| {
+        let mut rd = CopyReader { input: &buf, position: 0 };
+        let x = <U<B, L> as Decode>::decode(&mut rd)?;
+        Ok::<_, der::Error>((x, buf.len() - rd.position))
+    });
+    let (xc, leftc) = want_ok(rec, "der::decode(copying reader)", "decode_error", r)?;
+    rec.ensure("der::decode(copying reader)", "roundtrip_value_wrong", num(&xc) == vb, || format!("decoded {}", hex(&num(&xc))))?;
+    rec.ensure("der::decode(copying reader)", "not_fully_consumed", leftc == 1, || format!("{leftc} bytes left, expected 1"))?;
+    let (x, left) = want_ok(rec, "der::decode", "decode_error", r0)?;
     rec.ensure("der::decode", "roundtrip_value_wrong", num(&x) == vb, || format!("decoded {}", hex(&num(&x))))?;
     rec.ensure("der::decode", "not_fully_consumed", left == 1, || format!("{left} bytes left, expected 1"))?;
     // ASN.1 value types: conversions there and back, and their own DER
